@@ -51,7 +51,49 @@ func intMax(a, b int) int {
 	}
 }
 
+// cNonFinite spells an infinity or a NaN as C's printf does (inf, -inf, nan; upper case for the
+// upper case directives; a + or space flag shows on positive values).
+func cNonFinite(v float64, f fmt.State, c rune) string {
+	s := "inf"
+	if math.IsNaN(v) {
+		s = "nan"
+	}
+	if c == 'E' || c == 'F' || c == 'G' {
+		s = strings.ToUpper(s)
+	}
+	switch {
+	case math.Signbit(v):
+		s = "-" + s
+	case f.Flag('+'):
+		s = "+" + s
+	case f.Flag(' '):
+		s = " " + s
+	}
+	return s
+}
+
+// writePadded writes s in a field of the requested width, counted in bytes.
+func writePadded(f fmt.State, s string) {
+	if w, ok := f.Width(); ok && w > len(s) {
+		pad := strings.Repeat(" ", w-len(s))
+		if f.Flag('-') {
+			s += pad
+		} else {
+			s = pad + s
+		}
+	}
+	io.WriteString(f, s)
+}
+
 func defaultFormat(v interface{}, f fmt.State, c rune) {
+	if s, ok := v.(string); ok && c == 's' {
+		// C counts bytes for the precision and the width of %s, package fmt counts runes
+		if p, ok := f.Precision(); ok && p < len(s) {
+			s = s[:p]
+		}
+		writePadded(f, s)
+		return
+	}
 	buf := make([]string, 0, 10)
 	buf = append(buf, "%")
 	for i := 0; i < 128; i++ {
